@@ -17,7 +17,8 @@ CLAIMS = {
          "filled list = makers that traded and left, per-call and lifetime no-overfill ledger, add_transaction law. Tie: E-seq/E-seq0/E-pure; C02.ok judges each real MatchResult.",
          "Lean 4 proof by loop invariants (TxInv/ExhInv) + induction over histories; differential correspondence with Lean judge", "DESIGN §6 C02"),
  "C05": ("Theorems for every order and incoming quantity: the documented rule field by field (C05.ok), conservation, identity, per-kind rules, default 80 regenerated from source. "
-         "Tie: exhaustive grid + boundary + random E-pure; C05.ok judges the real match_against.",
+         "Also the exported tranche helper refresh_iceberg (rule, min(hidden, amount), hidden conserved; match_against's replenish steps are the helper on the capped amount) and the time-in-force predicates. "
+         "Tie: exhaustive grid + boundary + random E-pure; C05.ok judges the real match_against, C05.refreshOk the real refresh_iceberg.",
          "Lean 4 proof (grind/omega over the model) + exhaustive-grid differential correspondence with Lean judge", "DESIGN §6 C05"),
  "C06": ("The model's match loop is a total function accepted with a lexicographic measure (remaining + hidden, tickets) for every state; theorems: exhaustion of displayed "
          "liquidity and executed >= min(requested, displayed) from every well-formed state and over histories. Tie: E-seq0 with a per-op watchdog (a call that does not return is a violation with replay) and E-deep (one call re-queueing the same maker 66 000-90 000 times); C06.ok judges every real match.",
